@@ -193,10 +193,13 @@ func checkDecodedSize(h BoxHeader, b Box) error {
 		return nil // mdat may be truncated or lazily read
 	}
 	size := b.Size()
-	if size != h.Size && size != h.Size-uint64(h.Hdrlen)+boxHeaderSize {
-		return fmt.Errorf("box size %d does not match size of decoded content %d", h.Size, size)
+	if size == h.Size-uint64(h.Hdrlen)+boxHeaderSize {
+		return nil // same payload (a large-size header is written back as a normal one)
 	}
-	return nil
+	if _, isUnknown := b.(*UnknownBox); isUnknown && size == h.Size {
+		return nil // unknown boxes keep the size that was read
+	}
+	return fmt.Errorf("box size %d does not match size of decoded content %d", h.Size, size)
 }
 
 // DecodeHeaderSR - decode a box header (size + box type + possible largeSize) from sr
